@@ -130,14 +130,14 @@ PROPS.update({
     "C05": dict(
         rig="S", residual_nondeterminism=True, variants=["etcd", "mysql"], runs=dict(quick=2400, thorough=40000),
         nontrivial_probes=["checkpoint_checked", "liveness_checked", "reg_resume"],
-        must_hit=["checkpoint_checked", "liveness_checked", "reg_resume", "restart"],
+        must_hit=["checkpoint_checked", "liveness_checked", "reg_resume", "restart", "recovery_phase", "recovery_liveness_checked", "recovery_streams_checked"],
         rule="Source histories of 4-16 rounds (inserts/deletes on 1-3 collections x 1-2 shards, collection created / dropped mid-run, op messages, ticks) published one event per scheduler action while 1-2 tasks replicate to 1-2 downstreams; downstream write rejections, store errors (before/after apply) and DDL rejections at any parked call; pause/resume; 0-2 crashes with restart from the persisted world. After every store change each persisted checkpoint is compared with the downstream's acknowledgement log; every stream registration is compared with what it skips; at the end (fault-free drain) every message of a running task's streams must have been acknowledged.",
         assumptions=[S_REAL, "the replication domain of a stream starts at its first registration without a position (latest) or at the start position it was first given"],
     ),
     "C06": dict(
         rig="S", residual_nondeterminism=True, mix=[("S", "etcd"), ("S", "mysql"), ("S", "etcd"), ("S", "mysql"), ("R", "")], runs=dict(quick=2400, thorough=40000), panic_is_violation=True,
         nontrivial_probes=["task_paused_by_failure", "liveness_checked", "rejected_write_checked"],
-        must_hit=["task_paused_by_failure", "liveness_checked", "rejected_write_checked", "R_unknown_partition_reported"],
+        must_hit=["task_paused_by_failure", "liveness_checked", "rejected_write_checked", "R_unknown_partition_reported", "recovery_phase", "recovery_liveness_checked", "recovery_streams_checked", "event_queue_full"],
         rule="Same scenarios as C05 without crashes; the first-acknowledgement order per stream must be gap-free, a Paused task must show a reason, tasks end Paused only if a failure was injected, the four state views agree at the end, and the process must survive.",
         assumptions=[S_REAL, "a panic of the child process counts as a violation"],
     ),
